@@ -68,6 +68,9 @@ def vis():
     return sys.modules["persim.visuals"]
 
 
+INT_DTYPES = {"i64": np.int64, "u8": np.uint8, "i16": np.int16, "u16": np.uint16, "i32": np.int32}
+
+
 # ---------------------------------------------------------------- generation
 def gen_dgm(rng, allow_inf=True, allow_empty=False, max_n=6):
     pts, _, _, _ = dgmgen.gen_diagram(rng, max_n, style=rng.choice(("lattice", "float", "ilattice")),
@@ -140,6 +143,17 @@ def gen_case(rng, tier):
                 op["a"] = [[p[0], max(p)] for p in op["a"]]
                 op["b"] = [[p[0], max(p)] for p in op["b"]]
                 op["int_arrays"] = True
+                # narrow integer types, with values near the top of their range (sums and differences of two
+                # coordinates leave the type)
+                dt = rng.choice(("i64", "i64", "u8", "i16", "u16", "i32"))
+                vals = [x for p in op["a"] + op["b"] for x in p]
+                if dt != "i64" and vals and min(vals) >= 0:
+                    cap = {"u8": 250, "i16": 32000, "u16": 65000, "i32": 2000000000}[dt]
+                    f = float(int(cap // max(max(vals), 1.0)))
+                    if f >= 1:
+                        op["a"] = [[x * f for x in p] for p in op["a"]]
+                        op["b"] = [[x * f for x in p] for p in op["b"]]
+                        op["int_dtype"] = dt
             if rng.random() < 0.3:
                 op["labels"] = ["first", "second"]
         else:
@@ -452,7 +466,13 @@ def run_case(case, sched):
                 Aa = np.array(A, dtype=float).reshape(-1, 2) if A else np.zeros((0, 2))
                 Ba = np.array(B, dtype=float).reshape(-1, 2) if B else np.zeros((0, 2))
                 if op.get("int_arrays") and all(float(x).is_integer() for p in A + B for x in p):
-                    Aa, Ba = Aa.astype(np.int64), Ba.astype(np.int64)
+                    idt = op.get("int_dtype", "i64")
+                    if idt not in INT_DTYPES:
+                        raise InvalidCase("int_dtype")
+                    info = np.iinfo(INT_DTYPES[idt])
+                    if any(not info.min <= x <= info.max for p in A + B for x in p):
+                        raise InvalidCase("value outside the integer type")
+                    Aa, Ba = Aa.astype(INT_DTYPES[idt]), Ba.astype(INT_DTYPES[idt])
                 if kind == "bottleneck_matching":
                     _, rows, _ = mc.call_bottleneck(sched, Aa, Ba, True, op.get("mode", "uniform"), "ignore")
                 else:
